@@ -4,6 +4,7 @@ import (
 	"fmt"
 	"os"
 	"strconv"
+	"time"
 
 	"verif/engine"
 )
@@ -25,7 +26,16 @@ func freePass() {
 	for _, sc := range scenarios(true) {
 		for i := 0; i < iters; i++ {
 			c := engine.NewReplayChooser(nil)
-			class, detail, _, _, _ := runOne(sc, c)
+			var class, detail string
+			done := make(chan struct{})
+			go func() { class, detail, _, _, _ = runOne(sc, c); close(done) }()
+			select {
+			case <-done:
+			case <-time.After(60 * time.Second):
+				// a scenario that normally takes milliseconds did not finish: threads are blocked for good
+				fmt.Printf("FREE-RUN-HANG scenario=%s iteration=%d\n", sc.Name, i)
+				os.Exit(4)
+			}
 			total++
 			if class != "" {
 				fmt.Printf("FREE-RUN-FAILURE class=%s detail=%s\n", class, detail)
